@@ -155,6 +155,46 @@ def run(ctx):
     throttle('db::DbInner::commit_raw', CV_WAIT, '.DbInner.commit_queue_full_cv', 'db::DbInner::process_commits', ['parking_lot::Condvar::notify_all', 'parking_lot::Condvar::notify_one'],
              '.DbInner.commit_queue_full_cv', '.CommitQueue.bytes', 'commit-queue')
     throttle('db::DbInner::process_commits', CV_WAIT, '.DbInner.log_queue_wait', 'db::DbInner::enact_logs', NOTIFY, '.DbInner.log_queue_wait', None, 'log-queue')
+    # shutdown() wakes the throttled log worker once; if the throttle wait is (re)entered in a loop, every trip around the loop
+    # must look at the shutdown flag again, else the worker goes back to sleep on a backlog nobody will reduce and drop never returns
+    pcb = ctx.body('db::DbInner::process_commits')
+    if pcb:
+        for w in sites_on(pcb, CV_WAIT, '.DbInner.log_queue_wait'):
+            sh_loads = [bi for bi, t in pcb.calls() if call_matches(t, lib.ATOMIC_LOAD) and '.DbInner.shutdown' in lib.receiver_fields(pcb, t, 0)]
+            cyc = pcb.find_path(list(pcb.succ(w)), {w}, removed=set(sh_loads)) if w in pcb.reaches(w) else None
+            ctx.ob('2e throttle-wait-rechecks-shutdown', 'K3-loop-exit', pcb.path,
+                   'the log-queue throttle never waits again without re-reading the shutdown flag (shutdown notifies it only once)', cyc is None and bool(sh_loads),
+                   '' if cyc is None else 'the wait can be re-entered without looking at shutdown: ' + lib.short_path(pcb, cyc), pcb.loc(w))
+    # same for throttled committers: store_err wakes them once; a committer that waits again must have looked at the error slot
+    crb = ctx.body('db::DbInner::commit_raw')
+    if crb:
+        for w in sites_on(crb, CV_WAIT, '.DbInner.commit_queue_full_cv'):
+            be = [bi for bi, t in crb.calls() if bi in crb.normal_blocks() and t['a'] and '.DbInner.bg_err' in lib.receiver_fields(crb, t, 0)]
+            cyc = crb.find_path(list(crb.succ(w)), {w}, removed=set(be)) if w in crb.reaches(w) else None
+            ctx.ob('2e throttle-wait-rechecks-background-error', 'K3-loop-exit', crb.path,
+                   'the commit-queue throttle never waits again without looking at the background-error slot (store_err notifies the parked committers only once; with a dead log worker the queue never drains)',
+                   cyc is None and bool(be), '' if cyc is None else 'the wait can be re-entered without looking at bg_err: ' + lib.short_path(crb, cyc), crb.loc(w))
+    if crb:
+        # ... and a committer does not park at all once the error slot is set (the workers are gone: nobody drains the queue,
+        # nobody notifies again): the slot is looked at on every path to the wait, with the queue mutex held; and store_err
+        # notifies with that mutex held, so the look-then-wait of a committer cannot straddle the notification
+        for w in sites_on(crb, CV_WAIT, '.DbInner.commit_queue_full_cv'):
+            be = [bi for bi, t in crb.calls() if bi in crb.normal_blocks() and t['a'] and '.DbInner.bg_err' in lib.receiver_fields(crb, t, 0)]
+            lib.precedes(ctx, '2g error-slot-checked-before-parking', crb, be, [w],
+                         'a committer looks at the background-error slot before it waits on the full commit queue (a commit arriving after a worker died would otherwise park forever)')
+            for x in [y for y in be if w in crb.reaches(y)][:1]:
+                lib.held_at(ctx, '2g2 error-slot-checked-under-queue-mutex', crb, x, '.DbInner.commit_queue', 'the look at the error slot and the wait form one critical section of the commit-queue mutex')
+    seb = ctx.body('db::DbInner::store_err')
+    if seb:
+        for x in sites_on(seb, ['parking_lot::Condvar::notify_all', 'parking_lot::Condvar::notify_one'], '.DbInner.commit_queue_full_cv'):
+            lib.held_at(ctx, '2h committers-woken-under-queue-mutex', seb, x, '.DbInner.commit_queue',
+                        'store_err notifies the throttled committers with the commit-queue mutex held (a committer between its look at the error slot and its wait cannot miss the wake-up)')
+    if pcb:
+        sd = ctx.body('db::DbInner::shutdown')
+        if sd:
+            nt = sites_on(sd, NOTIFY + ['parking_lot::Condvar::notify_all'], '.DbInner.log_queue_wait')
+            st = [bi for bi, t in sd.calls() if call_matches(t, lib.ATOMIC_STORE) and '.DbInner.shutdown' in lib.receiver_fields(sd, t, 0)]
+            lib.precedes(ctx, '2f shutdown-flag-set-before-throttle-wake', sd, st, nt, 'shutdown stores the flag before it wakes the throttled log worker')
     # ---------------------------------------------------------------- 3. flag protocol
     sgb = ctx.body('db::WaitCondvar::<bool>::signal')
     if sgb:
